@@ -440,28 +440,45 @@ def main(argv):
                 b['status'] = 'bounded: not covered (%s)' % k['status']
             bounded.append(b)
 
-    # native cross-check of the spec functions / replay search (thorough tier, or when something failed)
+    # native bounded sweep: the real compiled code against naive re-implementations of the spec functions, small inputs,
+    # every backend (labelled bounded; never counted in obligations/discharged)
     native = None
     binary = None
-    if P.get('native') and (tier == 'thorough' or violations):
-        binary = build_replay(P.get('native') if isinstance(P.get('native'), str) else 'replay')
-        if binary and tier == 'thorough':
+    if P.get('native'):
+        which = P.get('native') if isinstance(P.get('native'), str) else 'replay'
+        binary = build_replay(which)
+        if binary is None:
+            undecided.append('native %s crate does not build' % which)
+        else:
             try:
                 p = subprocess.run([binary, 'sweep', pid, tier, str(seed)], capture_output=True, text=True, timeout=3000)
-                native = {'cmd': 'replay sweep %s' % pid, 'rc': p.returncode, 'summary': p.stdout.strip().split('\n')[-1][:300]}
-                for ln in p.stdout.split('\n'):
+                lines = p.stdout.strip().split('\n')
+                native = {'cmd': '%s sweep %s %s %d' % (which, pid, tier, seed), 'rc': p.returncode, 'summary': lines[-1][:300] if lines else ''}
+                nfail = 0
+                for ln in lines:
                     if ln.startswith('FAIL '):
                         inp = ln[5:]
-                        oid = 'native/' + (json.loads(inp).get('unit', '?') if inp.startswith('{') else '?')
+                        try:
+                            unit = json.loads(inp).get('unit', '?')
+                        except Exception:
+                            unit = '?'
+                        oid = 'native/' + unit
                         rec = {'obligation': oid, 'group': 'native', 'message': 'real code disagrees with the spec function', 'at': inp[:200], 'fn': oid, 'rendered': inp, 'input': inp}
                         kk = [x for x in known if x.get('property') == pid and x.get('obligation') == oid]
                         if kk:
                             known_hits.append((kk[0], rec))
                         else:
                             violations.append(rec)
-                        break
+                            nfail += 1
+                mcases = re.search(r'cases=(\d+)', native['summary'])
+                bounded.append({'harness': 'native sweep (%s)' % which, 'status': 'pass' if nfail == 0 else 'fail',
+                                'bound': 'small-input sweep, %s cases, tier %s: %s' % (mcases.group(1) if mcases else '?', tier, P.get('native_bound', 'see replay/src')),
+                                'wall_s': None, 'checks': int(mcases.group(1)) if mcases else None, 'solver_s': None})
+                if p.returncode not in (0, 1):
+                    undecided.append('native sweep crashed (rc=%s)' % p.returncode)
             except subprocess.TimeoutExpired:
-                native = {'cmd': 'replay sweep %s' % pid, 'rc': None, 'summary': 'timeout'}
+                native = {'cmd': 'sweep %s' % pid, 'rc': None, 'summary': 'timeout'}
+                bounded.append({'harness': 'native sweep', 'status': 'bounded: not covered (timeout)', 'bound': '', 'wall_s': None, 'checks': None, 'solver_s': None})
 
     # verdict -----------------------------------------------------------------
     rc = 0
@@ -472,7 +489,10 @@ def main(argv):
     for v in violations:
         inp = None
         if 'input' in v:
-            inp = v['input']
+            try:
+                inp = json.loads(v['input']) if isinstance(v['input'], str) else v['input']
+            except Exception:
+                inp = v['input']
         elif P.get('native'):
             binary = binary or build_replay(P.get('native') if isinstance(P.get('native'), str) else 'replay')
             unit = v['obligation'].split('/')[0]
